@@ -252,6 +252,9 @@ def scenarios(tier: str) -> list[tuple]:
             two = victim in (("create_trial",), ("finish",), ("create_trial", "finish")) or tier == "thorough"
             if tier == "quick":
                 pairs = pairs[:2] if victim == ("create_trial",) else pairs[:1]
+            if victim == ("create_trial",) or tier == "thorough":
+                # reader during the torn window, then two appends, then the same reader again
+                pairs = list(pairs) + [(("read", "read"), ("create_trial", "user_attr"))]
             nchunks = 8
             for ci in range(nchunks):
                 out.append((lock, victim, tuple(conts), tuple(pairs if two else ()), 2 if tier == "quick" else 3,
